@@ -77,9 +77,38 @@ func genU8(r *Rand) uint8 {
 
 type dateArg struct{ y, m, d int }
 
+// The same calendar date can reach the library carried by time values of different zones (ToDate and ParseDate use
+// the process zone, a caller may convert a time.Time of its own): arguments rotate through four carriers.
+var (
+	dateCarrier  int
+	carrierFixed = time.FixedZone("+0545", 5*3600+45*60)
+	carrierZone  = func() *time.Location {
+		if l, err := time.LoadLocation("Pacific/Kiritimati"); err == nil {
+			return l
+		}
+		return time.FixedZone("+14", 14*3600)
+	}()
+)
+
 func (a dateArg) date() types.Date {
-	if a.y == 1 && a.m == 1 && a.d == 1 {
+	dateCarrier++
+	k := dateCarrier % 4
+	if a.y == 1 && a.m == 1 && a.d == 1 { // 'no date': the zero instant, whatever zone it is expressed in
+		switch k {
+		case 1:
+			return types.Date(time.Time{}.In(time.Local))
+		case 2:
+			return types.Date(time.Time{}.In(carrierFixed))
+		}
 		return types.Date{}
+	}
+	switch k {
+	case 1:
+		return types.Date(time.Date(a.y, time.Month(a.m), a.d, 12, 0, 0, 0, time.Local))
+	case 2:
+		return types.Date(time.Date(a.y, time.Month(a.m), a.d, 12, 0, 0, 0, carrierFixed))
+	case 3:
+		return types.Date(time.Date(a.y, time.Month(a.m), a.d, 0, 0, 0, 0, carrierZone))
 	}
 	return types.Date(civilDate(a.y, a.m, a.d))
 }
